@@ -53,15 +53,18 @@ func c08FilterInv(f *idempotencyMembershipFilter) bool {
 // an empty 64-word layer). The layer code is generic in the size (mask = len(bits)*64-1), so the
 // inductive step is decided for pre-allocated layers of 1 and 2 words (quick tier: 1 or 2 words for the
 // primary-only states of the add-then-contains entry, 1+1 for the two-layer states and for the
-// monotonicity entry; thorough tier: 1, 2 and 4 words for all);
+// monotonicity entry; thorough tier: 1, 2 and 4 words, monotonicity 1 and 2);
 // the constructor-size allocation itself is covered by Harness_C08_FilterFromEmpty.
-func c08LayerSizes(oneWordOnly bool) (pw, ow int) {
+func c08LayerSizes(twoKeys bool) (pw, ow int) {
 	if zzsym.Thorough() {
-		w := 1 << uint(zzsym.Choice("words", 3))
+		n := 3
+		if twoKeys {
+			n = 2 // monotonicity entry: 1 or 2 words (4-word layers with two keys exceed the hour)
+		}
+		w := 1 << uint(zzsym.Choice("words", n))
 		return w, w
 	}
-	if oneWordOnly {
-		// (two-layer states and the two-key monotonicity entry: one-word layers keep the quick tier in budget)
+	if twoKeys {
 		return 1, 1
 	}
 	w := 1 << uint(zzsym.Choice("words", 2))
@@ -86,7 +89,7 @@ func c08ArbitraryFilter(saturated bool, room uint32, pw, ow int) *idempotencyMem
 
 // c08Key: the filter never looks at the key bytes, only at their (uninterpreted) hashes.
 func c08Key(name string) []byte {
-	return zzsym.Bytes(name, 1+c08Len(name+".len", 0, 1))
+	return zzsym.Bytes(name, 1)
 }
 
 // Harness_C08_FilterAddThenContains_EnvHash: first half of the inductive step of filter soundness on
@@ -96,7 +99,10 @@ func c08Key(name string) []byte {
 // Includes the saturation branch (primaryAdds at capacity: the key goes to the overflow layer).
 func Harness_C08_FilterAddThenContains_EnvHash() {
 	saturatedState := zzsym.Choice("saturated", 2) == 1
-	pw, ow := c08LayerSizes(saturatedState)
+	pw, ow := 1, 1 // two-layer states, quick tier: every mayContain walks both layers; one word each keeps it in budget
+	if !saturatedState || zzsym.Thorough() {
+		pw, ow = c08LayerSizes(false)
+	}
 	f := c08ArbitraryFilter(saturatedState, 1, pw, ow)
 	zzsym.Assert(c08FilterInv(f), "harness: generated state violates the invariant")
 	k := c08Key("k")
